@@ -207,6 +207,38 @@ def decimal_case(rng, kind=None, nd=None, absent=False):
     return c
 
 
+def max_common_case(rng, kind=None):
+    """The stored common of one dimension is a NumPy integer scalar AT ITS DTYPE MAXIMUM (uint8 255, int8 127, uint16 65535,
+    int16 32767) and the index cube infers its shape (extent = max + 1 must not wrap); 1-2 dimensions; the array cube gets the
+    same dense arrays in a dtype that holds them."""
+    c = gen_case(rng, kind=kind, nd=0, N=rng.choice([3, 4, 6, 8]))
+    N = c["N"]
+    nd = rng.choice([1, 1, 2])
+    k = rng.randrange(nd)
+    dt = rng.choice(["uint8", "int8", "uint8", "int8", "uint16", "int16"]) if nd == 1 else rng.choice(["uint8", "int8"])
+    top = int(numpy.iinfo(dt).max)
+    arrs, commons, exts, npd = [], [], [], []
+    for d in range(nd):
+        if d == k:
+            pool = [0, 1, top - 1, top, top, top]
+            arrs.append([rng.choice(pool) for _ in range(N)])
+            commons.append(top)
+            exts.append(top + 1)
+            npd.append(dt)
+        else:
+            e = rng.choice([2, 3])
+            arrs.append([rng.randrange(e) for _ in range(N)])
+            cm = rng.randrange(e)
+            commons.append(cm)
+            exts.append(max([v for v in arrs[-1] if v != cm] + [cm]) + 1)
+            npd.append(None)
+    c.update({"exts": exts, "arrs": arrs, "commons": commons, "np_common_dtypes": npd, "shape_mode": "inferred",
+              "xdtype": rng.choice(["int64", "int32", "uint16", "uint32"]), "N_arg": None, "boundary": True})
+    if c["form_seed"] is None:
+        c["form_seed"] = rng.getrandbits(30)
+    return c
+
+
 def int_weights_case(rng, kind=None):
     """Integer weights 0..250 whose sums cross 128 / 256 (pair form or an all-valid bare array), so that the narrow
     integer dtypes the form layer picks for them (uint8, int16 ...) are exercised where a narrow accumulator would wrap."""
@@ -303,8 +335,9 @@ def hidden_value(tag, true_value, dtype):
 #   * a weights TUPLE of numbers (a tuple is the (values, validity) pair by definition), interacting_shape as a list
 #     (the constructors concatenate tuples), unsigned NumPy scalars as interacting_shape entries (xcube: TypeError),
 #   * a scalar weight as a NARROW NumPy integer scalar (ccube.count wraps modulo 2^bits: candidate finding),
-#   * an iindex whose `common` is a NumPy integer scalar (iindex.to_array -> numpy.object AttributeError when it is the first
-#     distinct value: candidate finding in the iindex vertical).
+#   * an iindex whose `common` is a NumPy integer scalar TOGETHER WITH xcube(d.to_array()) (iindex.to_array -> numpy.object
+#     AttributeError when it is the first distinct value: candidate finding in the iindex vertical); with explicit dense
+#     arrays for the array cube NumPy-scalar commons ARE generated.
 FORM_TAGS = []          # tags of the forms used since the last drain (Suite.call moves them into the distribution)
 
 
@@ -373,7 +406,8 @@ def build_fact(c):
         arr, lt = arr.tolist(), "nested-list"
     else:
         arr, lt = forms.layout(frng, arr, p=0.55)
-    _tag("fact:%s/%s%s" % (tag, lt, "" if K is None else "/(N,%d)" % K))
+    _tag("fact-dtype:" + tag)
+    _tag("fact-layout:%s%s" % (lt, "" if K is None else " (N,K)"))
     if c["fform"] == "nan":
         return arr
     return (arr, _validity_form(frng, valid, "fact-validity"))
@@ -433,13 +467,14 @@ def build_weights(c):
         vals, lt = vals.tolist(), "list"
     else:
         vals, lt = forms.layout(frng, vals, p=0.5)
-    _tag("weights:%s/%s" % (tag, lt))
+    _tag("weights-dtype:" + tag)
+    _tag("weights-layout:" + lt)
     if wk == "arr":
         return vals
     return (vals, _validity_form(frng, valid, "weights-validity"))
 
 
-def build_index(catii, arr, common, N, form_seed=None, k=0):
+def build_index(catii, arr, common, N, form_seed=None, k=0, np_common=None):
     """A 1-D iindex storing every value but `common` (the representation ccube walks).  With a form seed: built by the
     constructor from row-id arrays that are column views of a larger buffer / with NumPy scalars for common and N, or by
     `from_array` from the dense array in a narrow integer dtype and another memory layout."""
@@ -450,20 +485,29 @@ def build_index(catii, arr, common, N, form_seed=None, k=0):
         import random
         frng = random.Random(form_seed * 31 + 100 + k)
     how = "ctor" if frng is None else frng.choice(["ctor", "ctor-views", "from_array", "from_array"])
+    # `common` as a NumPy integer scalar: np_common = a dtype name (forced), True (allowed: sometimes), None/False (never -
+    # iindex.to_array() mishandles it, notes FORM FINDINGS 2, so never when the array cube is fed by to_array)
+    if isinstance(np_common, str):
+        common = numpy.dtype(np_common).type(common)
+        _tag("iindex-common:numpy.%s%s" % (np_common, " at dtype max" if int(common) == numpy.iinfo(np_common).max else ""))
+    elif np_common and frng is not None and frng.random() < 0.3:
+        common, t = forms.scalar_int(frng, int(common), p=1.0)
+        _tag("iindex-common:numpy-scalar")
     if how == "from_array" and N > 0:
         an, t = forms.int_array(frng, a, p=0.8)
-        _tag("iindex:from_array(%s)" % t)
-        return catii.iindex.from_array(an, common=int(common))
+        _tag("iindex:from_array dtype " + t.split("/")[0])
+        _tag("iindex:from_array layout " + t.split("/")[1])
+        return catii.iindex.from_array(an, common=common)
     entries = {}
     for v in sorted(set(a.tolist())):
-        if v != common:
+        if v != int(common):
             rows = numpy.nonzero(a == v)[0].astype(numpy.uint32)
             if how == "ctor-views":
                 rows, _t = forms.rowids(frng, rows, p=0.7)
             entries[(int(v),)] = rows
     if how == "ctor-views":
         _tag("iindex:ctor(rowid column views, NumPy-scalar N)")
-        return catii.iindex(entries, int(common), (forms.scalar_int(frng, int(N), p=0.7)[0],))
+        return catii.iindex(entries, common, (forms.scalar_int(frng, int(N), p=0.7)[0],))
     return catii.iindex(entries, common, (N,))
 
 
@@ -483,24 +527,25 @@ def build_xarrays(c, dims):
             x = numpy.array(a, dtype=c["xdtype"])
         if frng is not None:
             x, lt = forms.layout(frng, x, p=0.4)
-            _tag("xcube-dim:%s/%s" % (x.dtype, lt))
+            _tag("xcube-dim-dtype:%s" % x.dtype)
+            _tag("xcube-dim-layout:" + lt)
         out.append(x)
     return out
 
 
 def form_exts(c, exts):
-    """interacting_shape entries as (signed) NumPy integer scalars"""
+    """interacting_shape entries as NumPy integer scalars of any integer dtype (signed or unsigned) that holds them"""
     from . import forms
     frng = _frng(c, 4)
-    if exts is None or frng is None or frng.random() < 0.6:
+    if exts is None or frng is None or frng.random() < 0.5:
         return exts
-    out = []
+    out, kinds = [], set()
     for e in exts:
-        v, t = forms.scalar_int(frng, int(e), p=0.8)
-        if t.startswith("numpy.uint"):
-            v, t = numpy.int64(int(e)), "numpy.int64"
+        v, t = forms.scalar_int(frng, int(e), p=0.85)
+        kinds.add("unsigned" if t.startswith("numpy.uint") else "signed" if t.startswith("numpy.") else "python")
         out.append(v)
-    _tag("interacting_shape:numpy-scalars")
+    for k in kinds - {"python"}:
+        _tag("interacting_shape:numpy-%s-scalars%s" % (k, " (>=2 dims)" if len(exts) >= 2 else ""))
     return tuple(out)
 
 
@@ -513,7 +558,7 @@ def call_args(c, fmt):
         if frng is not None and frng.random() < 0.5:
             from . import forms
             kw["N"], t = forms.scalar_int(frng, int(c["N_arg"]), p=1.0)
-            _tag("N:" + t)
+            _tag("N:numpy-scalar")
     return args, kw
 
 
@@ -992,7 +1037,10 @@ def zero_dim_case(rng, kind):
 
 
 def build_dims(catii, c):
-    return [build_index(catii, a, cm, c["N"], c.get("form_seed"), k) for k, (a, cm) in enumerate(zip(c["arrs"], c["commons"]))]
+    forced = c.get("np_common_dtypes") or [None] * len(c["arrs"])
+    allow = c["xdtype"] != "to_array"
+    return [build_index(catii, a, cm, c["N"], c.get("form_seed"), k, np_common=(forced[k] or allow))
+            for k, (a, cm) in enumerate(zip(c["arrs"], c["commons"]))]
 
 
 def cells_agree(c, a, b, exact=True):
